@@ -31,11 +31,12 @@ class Owner:
         self.lost = exc
 
 
-async def one_case(enc, mac, comp, direction, kind, k, sizes, taglen):
+async def one_case(enc, mac, comp, direction, kind, k, sizes, taglen, paused=False):
     """returns dict(contents=[bytes per tapped packet], items=[...], delivered=bytes, status=int, sent=bytes)"""
     import asyncssh
     got = {'c': bytearray(), 's': bytearray()}
     lost = {'c': 'none', 's': 'none'}
+    sess_lost = {'c': 'none', 's': 'none'}
 
     class SS(asyncssh.SSHServerSession):
         def connection_made(self, chan):
@@ -50,12 +51,18 @@ async def one_case(enc, mac, comp, direction, kind, k, sizes, taglen):
         def eof_received(self):
             return True
 
+        def connection_lost(self, exc):
+            sess_lost['s'] = exc
+
     class CS(asyncssh.SSHClientSession):
         def data_received(self, data, datatype):
             got['c'].extend(data)
 
         def eof_received(self):
             return True
+
+        def connection_lost(self, exc):
+            sess_lost['c'] = exc
 
     srv_sessions = []
 
@@ -174,6 +181,12 @@ async def one_case(enc, mac, comp, direction, kind, k, sizes, taglen):
             items = [orig(i) for i in range(k)] + [('Cut', None)]
         elif kind == 'cut-mid':
             items = [orig(i) for i in range(k)] + [('Trunc %d' % (S0 + k), pk[k][:len(pk[k]) // 2]), ('Cut', None)]
+        rchan = srv_sessions[0].chan if direction == 'c2s' else chan
+        if paused:
+            rchan.pause_reading()
+        # whatever the receiver writes back (window adjusts, its DISCONNECT) reaches the sender in order and
+        # before the end of its stream, as on a TCP connection
+        wire.auto = True
         for name, data in items:
             if data is None:
                 if not wire.lost[rside]:
@@ -182,6 +195,13 @@ async def one_case(enc, mac, comp, direction, kind, k, sizes, taglen):
                 wire._deliver_bytes(fside, bytes(data))
             await memwire.settle(3)
         await memwire.settle(10)
+        if paused:
+            try:
+                rchan.resume_reading()
+            except Exception:
+                pass
+            await memwire.settle(10)
+        wire.auto = False
         probe_ok = False
         if not any(d is None for _, d in items) and isinstance(lost[rside], str) and isinstance(lost[fside], str):
             # liveness probe: two more honest packets (IGNORE + DATA) continue the stream; they are part of
@@ -217,7 +237,7 @@ async def one_case(enc, mac, comp, direction, kind, k, sizes, taglen):
         else:
             status = 5
         return dict(contents=contents, items=[i[0] for i in items], delivered=delivered, status=status,
-                    sent=bytes(sent), exc=repr(exc), npk=n, k=k)
+                    sent=bytes(sent), exc=repr(exc), npk=n, k=k, sender_lost=lost[fside], session_lost=sess_lost[rside])
     finally:
         wire.auto = True
         try:
@@ -281,8 +301,9 @@ def run(ctx):
                 k = ctx.rng.randint(0, 7)
                 sizes = [ctx.rng.choice([1, bs - 5, bs - 1, bs, bs + 1, 3 * bs + 5, 200]) for _ in range(4)]
                 sizes = [max(1, s) for s in sizes]
+                paused = kind != 'none' and ctx.rng.random() < 0.3
                 try:
-                    r = sshutil.run(one_case(enc, mac, comp, direction, kind, k, sizes, taglen), timeout=120)
+                    r = sshutil.run(one_case(enc, mac, comp, direction, kind, k, sizes, taglen, paused), timeout=120)
                 except Exception as e:
                     ctx.broke('harness:session', f'{enc} {mac} {comp} {direction} {kind}: {e!r}')
                     continue
@@ -291,7 +312,9 @@ def run(ctx):
                 ctx.count('kind.' + kind)
                 ctx.count('status.%d' % r['status'])
                 cfg = {'kind': 'tamper', 'enc': enc, 'mac': mac, 'comp': comp, 'direction': direction, 'tamper': kind,
-                       'k': r['k'], 'sizes': sizes, 'items': r['items'], 'status': r['status'], 'exc': r['exc']}
+                       'k': r['k'], 'sizes': sizes, 'items': r['items'], 'status': r['status'], 'exc': r['exc'],
+                       'paused': paused}
+                ctx.count('receiver.' + ('paused' if paused else 'reading'))
                 # ---- direct oracle --------------------------------------------------------------
                 intact = 0
                 for it in r['items']:
@@ -300,7 +323,18 @@ def run(ctx):
                     else:
                         break
                 expect = b''.join(r['contents'][:intact])
-                if r['delivered'] != expect:
+                if paused:
+                    # data still buffered behind a paused reader may be discarded when the connection dies, but
+                    # nothing else may be delivered, and the session must be told the error, not a clean end
+                    if not expect.startswith(r['delivered']):
+                        ctx.failing_input(f'{enc}/{mac}/{comp} {direction} {kind}@{r["k"]} (reader paused): application '
+                                          f'received {len(r["delivered"])} bytes that are not a prefix of the data before '
+                                          'the first altered packet', cfg)
+                    if r['status'] in (2, 3, 5) and not isinstance(r['session_lost'], Exception):
+                        ctx.failing_input(f'{enc}/{mac}/{comp} {direction} {kind}@{r["k"]}: the connection ended with '
+                                          f'{r["exc"]} while the reader was paused, but after resuming the session was told '
+                                          f'connection_lost({r["session_lost"]!r}) - a clean end after truncated data', cfg)
+                elif r['delivered'] != expect:
                     ctx.failing_input(f'{enc}/{mac}/{comp} {direction} {kind}@{r["k"]}: application received '
                                       f'{len(r["delivered"])} bytes, the packets before the first altered one carry '
                                       f'{len(expect)} (sent {len(r["sent"])})', cfg)
@@ -309,12 +343,17 @@ def run(ctx):
                     ctx.failing_input(f'{enc}/{mac}/{comp} {direction} {kind}@{r["k"]}: stream was altered but the '
                                       f'connection ended with status {r["status"]} ({r["exc"]}) instead of an integrity, '
                                       'protocol or connection-lost error', cfg)
+                if kind != 'none' and r['status'] == 2 and not isinstance(r['sender_lost'], Exception):
+                    ctx.failing_input(f'{enc}/{mac}/{comp} {direction} {kind}@{r["k"]}: the receiver detected the '
+                                      f'alteration and disconnected ({r["exc"]}), but the sending end was told '
+                                      f'connection_lost({r["sender_lost"]!r}) instead of an error', cfg)
                 if kind == 'none' and r['status'] != 0:
                     ctx.broke('harness:control', f'untampered session {enc}/{mac}/{comp} ended with {r["status"]} {r["exc"]}')
-                cases.append('(%s, %d, %s, %s, %d)' % (clist(r['contents'], zl), S0,
-                                                       clist(r['items'], lambda x: '(' + x + ')' if ' ' in x else x),
-                                                       zl(r['delivered']), r['status']))
-                meta.append(cfg)
+                if not paused:          # the symbolic model has an attentive reader
+                    cases.append('(%s, %d, %s, %s, %d)' % (clist(r['contents'], zl), S0,
+                                                           clist(r['items'], lambda x: '(' + x + ')' if ' ' in x else x),
+                                                           zl(r['delivered']), r['status']))
+                    meta.append(cfg)
                 if len(ctx.cov['samples']) < 4 and kind != 'none':
                     ctx.sample(cfg)
     bad = ctx.coq_cases('tamper', IMPORTS, 'chk_tamper', cases, ty='list (list Z) * Z * list item * list Z * Z', shard=200)
@@ -339,7 +378,8 @@ def replay(rp):
         return 2
     encs, macs, comps, eparams, mparams = registries()
     taglen = eparams[rp['enc']][4] if aead(rp['enc'], eparams) else mparams[rp['mac']][1]
-    r = sshutil.run(one_case(rp['enc'], rp['mac'], rp['comp'], rp['direction'], rp['tamper'], rp['k'], rp['sizes'], taglen))
+    r = sshutil.run(one_case(rp['enc'], rp['mac'], rp['comp'], rp['direction'], rp['tamper'], rp['k'], rp['sizes'], taglen,
+                                 rp.get('paused', False)))
     print(r['items'], r['status'], r['exc'], len(r['delivered']))
     intact = 0
     for it in r['items']:
